@@ -263,6 +263,34 @@ theorem rewrite_bytes (s : St) (pos : Nat) (p : Bytes) (hpos : pos ≤ s.buf.len
   simp only [St.data, k.2.2.1, List.getElem?_drop]
   exact k.2.2.2.2.2 (s.off + j) hj
 
+/-- **ReWrite with a payload that aliases the buffer** (`ReWrite(pos, b.Bytes()[f:f+k])`): `copy` is `memmove`, so what is
+    stored are the OLD bytes of the source range, also where source and destination overlap (a forward byte loop would smear) -/
+theorem rewrite_aliasing (s : St) (pos f k : Nat) (hpos : pos ≤ s.buf.length) (j : Nat) (hj : j < s.buf.length) :
+    (rewrite s pos ((s.data.drop f).take k)).1.buf[j]? =
+      if pos ≤ j ∧ j < pos + ((s.data.drop f).take k).length then s.buf[s.off + f + (j - pos)]? else s.buf[j]? := by
+  have h := (rewrite_exact s pos ((s.data.drop f).take k) hpos).2.2.2.2.2 j hj
+  rw [h]
+  by_cases hc : pos ≤ j ∧ j < pos + ((s.data.drop f).take k).length
+  · rw [if_pos hc, if_pos hc]
+    have hk : j - pos < k := by
+      have : ((s.data.drop f).take k).length ≤ k := by simp [List.length_take]; omega
+      omega
+    rw [List.getElem?_take, if_pos hk, St.data, List.getElem?_drop, List.getElem?_drop]
+    congr 1; omega
+  · rw [if_neg hc, if_neg hc]
+
+/-- overlapping self-copy, the red-team's input: `01..08`, `ReWrite(2, Bytes()[0:6])` gives `01 02 01 02 03 04 05 06` -/
+example : (rewrite ⟨[1, 2, 3, 4, 5, 6, 7, 8], 0, 16, 0, false⟩ 2
+    (((⟨[1, 2, 3, 4, 5, 6, 7, 8], 0, 16, 0, false⟩ : St).data.drop 0).take 6)).1.buf = [1, 2, 1, 2, 3, 4, 5, 6] := by decide
+
+/-- the script behind the `big` operation on the abstract buffer, for payloads of ANY size: `Write(p); Next(r); Write(q)`
+    returns `|p|`, the first `r` bytes of `p`, `|q|`, and leaves `p[r:] ++ q` (the oracle streams length and digest of that) -/
+theorem spec_write_next_write (p q : Bytes) (r : Nat) :
+    outs specObs SSt.empty [.write p, .next r, .write q] =
+      [(.nErr p.length .nil, p), (.data (p.take r), p.drop r), (.nErr q.length .nil, p.drop r ++ q)] := by
+  have h : ¬ ((r : Int) < 0) := by omega
+  simp [outs, runOps, specObs, Spec.step, SSt.empty, h]
+
 /-! ### non-vacuity -/
 
 example : Proved ⟨.unsigned, .half, 64, 512⟩ := by decide
